@@ -25,7 +25,8 @@ RULE = ("every program of the C01 C02 C03 C04 C06 C07 C09 generators plus "
         "formats whose scalars are updated in place, sub-programs, every "
         "combination of per-CPU map / array map / hash map / stack "
         "variables in any declaration order with static or dynamic packet "
-        "guards, memory operands addressed through a bare register in every "
+        "guards, static guards at the small end (minimumPacketSize 0, 1, "
+        "13..15) left through the default exit code, memory operands addressed through a bare register in every "
         "position, dynamic packetSize guards after "
         "arithmetic, nested guards) and the library's own programs (the "
         "EtherXDP dispatcher; FastSyncGroup over random terminal sets with "
@@ -54,6 +55,9 @@ def classify(tag, log, desc=None):
     if tag == "c04" and isinstance(desc, dict) and desc.get("avars2") and \
             "invalid access to map value" in log:
         return "two-array-maps-share-the-base-register"
+    if tag == "minsize" and isinstance(desc, dict) and desc.get("G") == 0 \
+            and desc.get("touch") and "offset is outside of the packet" in log:
+        return "packet-access-under-a-zero-size-guard"
     if "BPF_ATOMIC stores into R9 pkt" in log:
         return "atomic-add-on-packet-variable"
     if re.search(r"invalid shift \d+", log):
@@ -76,7 +80,8 @@ def submit(tag, mk, res, desc=None):
             res.count(f"not_accepted[{tag}]")
             return None
         except (TypeError, AttributeError, ValueError, KeyError,
-                IndexError, __import__("struct").error) as ex:
+                IndexError, OverflowError,
+                __import__("struct").error) as ex:
             res.count(f"generator_crash[{tag}]")
             return None
         shape = [ins[0] for ins in ebpfvm.Program(ld.code).insns]
@@ -86,6 +91,26 @@ def submit(tag, mk, res, desc=None):
         try:
             ld.load()
             res.count(f"loaded[{tag}]")
+            if tag.startswith(("fastgroup", "dispatcher")) or \
+                    len(shape) % 7 == 0:
+                # the way the library itself loads programs (XDP.run,
+                # register_sync_group): load() without arguments
+                try:
+                    e.load()
+                    res.count("loaded_through_the_default_path")
+                    import os as _os
+                    try:
+                        _os.close(e.file_descriptor)
+                    except Exception:
+                        pass
+                except OSError as ex:
+                    res.violation(
+                        f"unexplained:{tag} default load() fails",
+                        f"{tag}: the program ({len(shape)} instructions) "
+                        f"loads with an explicit verifier log buffer but "
+                        f"load() with the library's defaults fails: "
+                        f"{str(ex)[-200:]}", case=dict(family=tag, desc=desc))
+                    return False
             if len(res.samples) < 4 and tag not in [s.get("family")
                                                     for s in res.samples]:
                 res.sample(dict(family=tag, instructions=len(shape),
@@ -312,6 +337,40 @@ def fam_storage_mix(rng):
     return mk, dict(kinds=kinds, static=static, G=G, fmts=fm)
 
 
+def fam_minsize(rng):
+    """statically guarded XDP programs at the small end of the guard
+    (minimumPacketSize 0, 1, 13, 14 ...) that leave through the default
+    exit code instead of calling exit() themselves"""
+    G = rng.choice([0, 0, 1, 2, 13, 14, 15])
+    kind = rng.choice(["array", "hash", "local"])
+    touch = rng.random() < 0.6
+
+    def mk():
+        from ebpfcat.hashmap import HashMap
+        from ebpfcat.ebpf import LocalVar
+        ns = {"license": "GPL", "minimumPacketSize": G,
+              "defaultExitCode": rng.choice([XDPExitCode.PASS,
+                                             XDPExitCode.DROP])}
+        if kind == "array":
+            ns["m"] = ArrayMap()
+            ns["cnt"] = ns["m"].globalVar("I")
+        elif kind == "hash":
+            ns["h"] = HashMap()
+            ns["cnt"] = ns["h"].globalVar()
+        else:
+            ns["cnt"] = LocalVar("I")
+
+        def program(self):
+            if kind == "local":
+                self.cnt = 1
+            self.cnt = self.cnt + 1
+            if touch:
+                self.pB[G] = 7
+        ns["program"] = program
+        return type("VfMinSize", (XDP,), ns)()
+    return mk, dict(G=G, kind=kind, touch=touch)
+
+
 def fam_regmem(rng):
     """memory operands addressed through a register (e.mQ[reg], with and
     without an offset) in every position: source of a copy into a hash-map /
@@ -480,6 +539,10 @@ def run_shard(params):
         for nm in DEVS:
             mk, names = fam_fastgroup(rng, [nm])
             submit("fastgroup:" + nm, mk, res, desc=names)
+        # large groups (many axes), as loaded by register_sync_group
+        for n in (6, 7):
+            mk, names = fam_fastgroup(rng, ["Motor"] * n + ["Counter"])
+            submit(f"fastgroup:{n} motors", mk, res, desc=names)
     for i in range(params["n"]):
         cs = c01.gen_case(rng, 3)
         submit("c01", lambda: dsl.build(cs["spec"]).ebpf, res, cs["spec"])
@@ -512,6 +575,8 @@ def run_shard(params):
         submit("storagemix", mk, res, desc=d)
         mk, d = fam_regmem(rng)
         submit("regmem", mk, res, desc=d)
+        mk, d = fam_minsize(rng)
+        submit("minsize", mk, res, desc=d)
         mk, names = fam_fastgroup(rng)
         submit("fastgroup", mk, res, desc=names)
     return res
@@ -520,7 +585,7 @@ def run_shard(params):
 def finalize(res, tier, seed):
     c = res.counters
     fams = ["c01", "c02", "c03", "c04", "c06", "c07", "c09hash", "c09dict",
-            "calls", "rawcall", "layout", "guards", "subprog", "storagemix", "regmem",
+            "calls", "rawcall", "layout", "guards", "subprog", "storagemix", "regmem", "minsize",
             "fastgroup",
             "dispatcher"]
     missing = [f for f in fams if not c.get(f"loaded[{f}]")]
